@@ -71,6 +71,27 @@ def handwritten(did):
     # a full byte: 256 variants on repr(u8), every value taken (some disabled); more variants than a byte on repr(u16)
     mk("u8", [("V%d" % k, 0, None, k % 37 == 5) for k in range(256)])
     mk("u16", [("W%d" % k, 0, None, k % 41 == 7) for k in range(300)])
+    # discriminants at the limits of the repr type
+    mk("u8", [("Lo", 0, "0", False), ("Mid", 0, None, False), ("Hi", 255, "255", False)])
+    mk("i8", [("Min", -128, "-128", False), ("Next", 0, None, False), ("Max", 127, "127", False), ("Zero", 0, "0", True)])
+    # ... of the wide types: written relative to an anchor 40 away from the limit (the specification counts in offsets from it)
+    def mk_anchored(repr_, top, items):
+        vs = []
+        for name, rel, dis in items:
+            v = variant(name, dis=dis)
+            if rel is not None:
+                base = "%s::MAX - 40" % repr_ if top else "%s::MIN + 40" % repr_
+                v["disc"], v["discx"] = [rel], "%s %s %d" % (base, "+" if rel >= 0 else "-", abs(rel))
+            vs.append(v)
+        E = enum(did + len(out), vs, repr_=repr_)
+        E["anchor_rs"] = ("(%s::MAX as i128) - 40" if top else "(%s::MIN as i128) + 40") % repr_
+        E["absvals"], E["repr_mode"] = [], "plain"
+        out.append(E)
+    mk_anchored("i64", True, [("Below", -10, False), ("Next", None, False), ("Top", 40, False)])
+    mk_anchored("i64", False, [("Bottom", -40, False), ("Next", None, False), ("Off", None, True), ("After", None, False)])
+    mk_anchored("u64", True, [("Near", 38, False), ("Almost", None, True), ("Top", None, False)])
+    mk_anchored("isize", False, [("Bottom", -40, False), ("Next", None, False)])
+    mk("u16", [("Top", 65535, "u16::MAX", False), ("Zero", 0, "0", False), ("One", 0, None, True), ("Two", 0, None, False)])
     # a signed byte used from -100 upwards: 200 variants, positions beyond 127
     mk("i8", [("S%d" % k, -100 if k == 0 else 0, "-100" if k == 0 else None, k % 53 == 9) for k in range(200)])
     return out
